@@ -61,10 +61,19 @@ class Evo:
                 ft, it_ = ft3, it3
         if len(ft) != 1 or len(it_) != 1:
             raise AnalysisError(f'coordinate transforms not recognised: {[f.name for f in ft]}, {[f.name for f in it_]}')
-        self.p2d, self.d2p = ft[0], it_[0]
+        self.p2d, self.d2p = self._method_face(ft[0], fwd), self._method_face(it_[0], inv)
         self.node_fn = self._array_callee(self.forward, self.level_callees_fwd)
         self.numbr_fn = self._array_callee(self.inverse, self.level_callees_inv)
         self.heavy = {f.name for f in (self.node_fn, self.numbr_fn) if f is not None}
+
+    def _method_face(self, f: FuncInfo, closure) -> FuncInfo:
+        """A transform written as a free function (moved to a helper module) is analysed through the method of the
+        class that delegates to it: there its operands are the attributes of the evolvent."""
+        if f.cls is not None:
+            return f
+        faces = [m for m in closure if m.cls is self.cls and m is not f and self._is_delegator(m) and
+                 any(f in self.ctx.pta.internal_callees(m, nd) for nd in ast.walk(m.node) if isinstance(nd, ast.Call))]
+        return faces[0] if len(faces) == 1 else f
 
     def _scratch_attrs(self) -> Set[str]:
         """Attributes of self that the forward descent stores into (element-wise or whole)."""
@@ -179,7 +188,13 @@ class Evo:
 
     def _is_mine(self, c: FuncInfo) -> bool:
         """A private method of the class or a helper function of its module."""
-        return c.cls is self.cls or (c.cls is None and c.module is self.cls.module and c.kind == 'function')
+        if c.cls is self.cls:
+            return True
+        # helper functions of the module, or of a sibling module of the same package (the coordinate transforms
+        # moved into iOpt/evolvent/bounds_transform.py)
+        pkg = self.cls.module.name.rsplit('.', 1)[0]
+        return c.cls is None and c.kind == 'function' and \
+            (c.module is self.cls.module or c.module.name.rsplit('.', 1)[0] == pkg)
 
     def _has_level_loop(self, f: FuncInfo) -> bool:
         """A descent function: a top-level for loop, not over the coordinates (range(N)), whose body calls a
@@ -577,11 +592,14 @@ def rule_affine(ctx: Ctx, rid: str, which=('P2D', 'D2P'), scope=None):
         selfv = var(fn.param_names[0])
         Uarr = attr(selfv, e.backing_field('upperBoundOfFloatVariables'))
         Larr = attr(selfv, e.backing_field('lowerBoundOfFloatVariables'))
-        has_loop = any(isinstance(nn, ast.For) for nn in fn.node.body)
+        paths_w = C.normal_paths(ex.explore(fn))
+        # the coordinate loop may sit in the transform itself or in the helper it delegates to (looked through)
+        has_loop = any(isinstance(nn, ast.For) for nn in fn.node.body) or \
+            any(ev.kind == 'iter' for p in paths_w for ev in p.events)
         msg = 'cube -> box map is y*(U-L) + (U+L)/2' if w == 'P2D' else 'box -> cube map is (y - (U+L)/2)/(U-L)'
         done = False
-        for p in C.normal_paths(ex.explore(fn)):
-            its = [ev for ev in p.events if ev.kind == 'iter' and ev.depth == 0]
+        for p in paths_w:
+            its = [ev for ev in p.events if ev.kind == 'iter']
             if has_loop and not its:
                 continue
             if its:
@@ -642,12 +660,22 @@ def rule_affine(ctx: Ctx, rid: str, which=('P2D', 'D2P'), scope=None):
                       f'bounds)', key=ctx.key_for(rid, fn, node))
             out[w] = (got, y, i)
         if has_loop:
-            lp = [nn for nn in fn.node.body if isinstance(nn, ast.For)]
-            okl = len(lp) == 1 and isinstance(lp[0].iter, ast.Call) and isinstance(lp[0].iter.func, ast.Name) and \
-                lp[0].iter.func.id == 'range' and isinstance(lp[0].iter.args[-1], ast.Attribute) and \
-                lp[0].iter.args[-1].attr == 'numberOfFloatVariables' and \
-                (len(lp[0].iter.args) == 1 or (isinstance(lp[0].iter.args[0], ast.Constant)
-                                               and lp[0].iter.args[0].value == 0))
+            # on the paths: exactly one coordinate loop, over range(N) / range(0, N) with N the dimension attribute
+            nk = C.strip_versions(key_of(attr(selfv, 'numberOfFloatVariables')))
+            zero_k = key_of(RF.const(0))
+            loops_seen = set()
+            okl = True
+            for p in paths_w:
+                for ev in p.events:
+                    if ev.kind != 'iter':
+                        continue
+                    loops_seen.add(id(ev.node))
+                    va = ev.d['var'].single_atom() if isinstance(ev.d.get('var'), RF) else None
+                    src = va[3] if isinstance(va, tuple) and len(va) == 4 and va[0] == 'iter' else None
+                    okl = okl and isinstance(src, tuple) and bool(src) and src[0] == 'range' and \
+                        ((len(src) == 2 and C.strip_versions(src[1]) == nk) or
+                         (len(src) == 3 and src[1] == zero_k and C.strip_versions(src[2]) == nk))
+            okl = okl and len(loops_seen) == 1
             ctx.check(okl, rid, fn.short, fn.loc(), 'the transform loops over all N coordinates',
                       f'{fn.short} does not loop over range(N) coordinates', key=f'{rid}::{fn.short}::all-coordinates')
         if not done and not any(f.rule == rid for f in ctx.findings):
